@@ -92,6 +92,12 @@ def run(chk):
             prop_fail.append({"case": c.key()[:1500] + " | " + o[:120] + "...", "key": {"call": "PageHeaders", "layout": "padded-row-groups"},
                               "clause": "PageHeaders of the file with padding before every row group differs from the headers of the same pages laid out back to back",
                               "got": a[:500], "want": base[c.impl_file][:500]})
+    # no side effects: on one footer object the calls give the same answers before and after each other
+    seq = par(pair.impl, ["introspect-seq %s" % c.impl_file for c in cases])
+    for c, r in zip(cases, seq):
+        if r != "ok":
+            prop_fail.append({"case": c.key()[:2000], "key": {"call": "sequence", "what": r[:60]},
+                              "clause": "introspection calls on one footer object are not repeatable: " + r, "got": r, "want": "ok"})
     at_ops, at_want, at_case = [], [], []
     nontrivial = set()
     for c, w, im, mm, ip, mp in zip(cases, walk, imeta, mmeta, iph, mph):
@@ -146,7 +152,7 @@ def run(chk):
         "checker_cmd": "cd lean && lake build %s" % MODULE, "trusted_base": TRUSTED_BASE, "forbidden_constructs": pr["forbidden_constructs"],
         "padded_layout_files": gap_checked,
         "evaluations": 2 * len(cases) + len(at_ops), "distinct_nontrivial": len(nontrivial) + len(set(at_ops)),
-        "rule": "valid files of 7 structs x 3 codecs x page sizes (incl. several pages per chunk and two row groups), files with page headers up to > 128 KiB, foreign files from PQ.specWrite incl. row groups without rows, files with padding before every row group (offsets shifted): ReadMetaData vs the footer decoded by the independent Lean thrift decoder; PageHeaders vs one header per page found by the independent walk (PQ.parseFile); PageHeadersAtOffset from EVERY page start with n in {0, nv-1, nv, nv+1, rest of chunk}; non-trivial = distinct call with the expected result",
+        "rule": "valid files of 7 structs x 3 codecs x page sizes (incl. several pages per chunk and two row groups), files with page headers up to > 128 KiB, foreign files from PQ.specWrite incl. row groups without rows, files with padding before every row group (offsets shifted): ReadMetaData vs the footer decoded by the independent Lean thrift decoder; PageHeaders vs one header per page found by the independent walk (PQ.parseFile); PageHeadersAtOffset from EVERY page start with n in {0, nv-1, nv, nv+1, rest of chunk}; call sequences on one footer object (footer, per-chunk listing, PageHeaders twice, footer again: all repeatable); non-trivial = distinct call with the expected result",
         "samples": [at_ops[0][-60:] if at_ops else "-", cases[0].key()[:200]],
         "tie": "exact: Lean mirrors readMetaData/pageHeaders/pageHeadersAt = Go functions (canonical field-by-field text)",
         "tie_disagreements": len(tie_breaks), "property_failures_on_impl": len(prop_fail),
